@@ -264,7 +264,10 @@ func receiveUnaryResponse[T any](conn StreamingClientConn) (*Response[T], error)
 	if err := conn.Receive(new(T)); err == nil {
 		return nil, NewError(CodeUnknown, errors.New("unary stream has multiple messages"))
 	} else if err != nil && !errors.Is(err, io.EOF) {
-		return nil, NewError(CodeUnknown, err)
+		// The response message was followed by an error - typically the server's,
+		// already decoded with its code, details and metadata. Don't bury it in
+		// an "unknown" one.
+		return nil, err
 	}
 	return &Response[T]{
 		Msg:     &msg,
